@@ -38,14 +38,15 @@ func findIntersection(seg0, seg1 segment) (int, Point, Point) {
 	d0 := Point{seg0.end.X - p0.X, seg0.end.Y - p0.Y}
 	p1 := seg1.start
 	d1 := Point{seg1.end.X - p1.X, seg1.end.Y - p1.Y}
-	sqrEpsilon := 0. // was 1e-3 earlier
 	E := Point{p1.X - p0.X, p1.Y - p0.Y}
 	kross := d0.X*d1.Y - d0.Y*d1.X
-	sqrKross := kross * kross
 	sqrLen0 := lengthToOrigin(d0)
-	sqrLen1 := lengthToOrigin(d1)
 
-	if sqrKross > sqrEpsilon*sqrLen0*sqrLen1 {
+	// The lines are parallel exactly when kross is 0. (This used to be
+	// kross*kross > sqrEpsilon*sqrLen0*sqrLen1 with sqrEpsilon = 0; the square
+	// of a small kross underflows to 0 and crossing segments were taken for
+	// parallel ones.)
+	if kross != 0 {
 		// lines of the segments are not parallel
 		s := (E.X*d1.Y - E.Y*d1.X) / kross
 		if s < 0 || s > 1 {
@@ -65,10 +66,8 @@ func findIntersection(seg0, seg1 segment) (int, Point, Point) {
 	}
 
 	// lines of the segments are parallel
-	sqrLenE := lengthToOrigin(E)
 	kross = E.X*d0.Y - E.Y*d0.X
-	sqrKross = kross * kross
-	if sqrKross > sqrEpsilon*sqrLen0*sqrLenE {
+	if kross != 0 {
 		// lines of the segment are different
 		return 0, nanPoint, nanPoint
 	}
